@@ -715,7 +715,7 @@ export(vbi_export *e, vbi_page *pgp)
 					escaped_putc(html, out[0]);
 				}
 			} else if (vbi_is_gfx(acp[j].unicode)) {
-				putc(html->gfx_chr);
+				escaped_putc(html, html->gfx_chr & 0xFF);
 			} else {
 				putc(0x20);
 			}
